@@ -31,11 +31,15 @@ Record request := mkRequest {
   rq_version : bytes;
   rq_headers : headers;
   rq_body : option bytes;
-  rq_tunnel : bool            (* _is_https_tunnel: method == CONNECT *)
+  rq_tunnel : bool;           (* _is_https_tunnel: method == CONNECT *)
+  rq_buffer : bytes           (* HttpParser.buffer: bytes received after the end of this message and not yet handed on ([] = None).
+                                 It belongs to the parser OBJECT: a hook that returns a new object returns one with an empty buffer *)
 }.
 
 Definition set_headers (r : request) (h : headers) : request :=
-  mkRequest (rq_method r) (rq_host r) (rq_port r) (rq_path r) (rq_version r) h (rq_body r) (rq_tunnel r).
+  mkRequest (rq_method r) (rq_host r) (rq_port r) (rq_path r) (rq_version r) h (rq_body r) (rq_tunnel r) (rq_buffer r).
+Definition set_buffer (r : request) (b : bytes) : request :=
+  mkRequest (rq_method r) (rq_host r) (rq_port r) (rq_path r) (rq_version r) (rq_headers r) (rq_body r) (rq_tunnel r) b.
 
 (* ---- constants ---- *)
 Definition PROXY_AUTHORIZATION : bytes := bs "proxy-authorization".   (* httpHeaders.PROXY_AUTHORIZATION *)
@@ -193,4 +197,5 @@ Definition request_eqb (x y : request) : bool :=
   && bytes_eqb (rq_version x) (rq_version y)
   && headers_eqb (rq_headers x) (rq_headers y)
   && option_eqb bytes_eqb (rq_body x) (rq_body y)
-  && Bool.eqb (rq_tunnel x) (rq_tunnel y).
+  && Bool.eqb (rq_tunnel x) (rq_tunnel y)
+  && bytes_eqb (rq_buffer x) (rq_buffer y).
